@@ -81,6 +81,27 @@ class C07(Check):
             for text, ln in sts:
                 self.yield_lines.add((self.rfile, ln))
 
+    def min_yield_lines(self):
+        """Pre-emption points among the listed statements: only those the model tags as an action performed by the
+        statement itself (kind 'L'), plus every listed statement the model's table does not know (a changed tree).
+        Statements tagged call / thread-local / not-modelled have no effect visible to another thread, so pre-empting
+        right before them is equivalent to pre-empting before the next action.  Without the driver: all listed lines."""
+        if getattr(self, "_min_yield", None) is None:
+            try:
+                tab = self.table()
+            except Exception:
+                return self.yield_lines
+            keep = set()
+            for rel, qual, sts, span in self.extract:
+                if span is None or not rel.endswith("recoco.py"): continue
+                if qual.startswith("Lock.") or qual.startswith("_Lock"): continue
+                for text, ln in sts:
+                    ent = tab.get((qual, ln))
+                    if ent is None or "L" in ent["acts"] or "?" in ent["tags"]:
+                        keep.add((self.rfile, ln))
+            self._min_yield = keep
+        return self._min_yield
+
     def translate(self):
         text, ex = sites_tr.render(common.REPO)
         path = os.path.join(common.LEAN, "PoxModel", "Generated", "Sites.lean")
@@ -95,9 +116,12 @@ class C07(Check):
             model = {r["fn"]: r["items"] for r in resp["table"]}
             for rel, qual, sts, span in self.extract:
                 items = model.get(sites_tr.key(rel, qual))
-                if items is None or len(items) != len(sts): continue
+                if items is None or len(items) != len(sts):
+                    for text, ln in sts: rows.setdefault((qual, ln), {"acts": {}, "tags": set()})["tags"].add("?")
+                    continue
                 for (text, ln), it in zip(sts, items):
-                    if it["text"] != text: continue
+                    if it["text"] != text:
+                        rows.setdefault((qual, ln), {"acts": {}, "tags": set()})["tags"].add("?"); continue
                     ent = rows.setdefault((qual, ln), {"acts": {}, "tags": set()})
                     ent["tags"].add(it["tag"])
                     if it["tag"] == "act":
@@ -168,56 +192,61 @@ class C07(Check):
 
     # ------------------------------------------------------------------ bounded exhaustive schedules (thorough)
     def exhaustive_cases(self, rng):
-        """all schedules with at most 2 pre-emptions (pre-emption = switching away from an enabled thread, at a point
-        where the running thread is about to perform a model action) of small scenarios: 2–3 threads x 2–3 operations"""
+        """every schedule with at most 2 pre-emptions (pre-emption = switching away from a thread that could go on) on
+        top of the non-preemptive round-robin baseline, for small scenarios (1–2 foreign threads x 1–3 operations, both
+        hub modes).  Bound 1 is always complete; bound 2 is enumerated in a fixed order up to a per-scenario cap (the
+        evidence says which scenarios were completed)."""
         CL, SE, SX = {"o": "callLater"}, {"o": "syncEnter"}, {"o": "syncExit"}
         S0 = {"o": "schedule", "t": 0}
         scen = [
-            (False, [], [[CL, CL]]),
+            (False, [], [[CL], [CL]]),
             (True, [], [[CL], [CL]]),
             (False, [[0]], [[S0], [S0]]),
             (True, [[1]], [[S0, S0]]),
             (True, [[0]], [[SE, SX], [S0]]),
             (False, [[0]], [[SE, CL, SX]]),
+            (True, [], [[CL, CL]]),
+            (True, [[0]], [[S0], [S0]]),
+            (False, [[0]], [[SE, SX], [S0]]),
+            (False, [], [[CL], [SE, SX]]),
+            (True, [], [[CL], [SE, SX]]),
+            (True, [[0]], [[CL], [S0], [SE, SX]]),
         ]
-        budget = 2600
-        per = budget // len(scen)
+        cap2 = 2500
+        self.exhaustive_report = []
         for threaded, users, progs in scen:
             base = {"kind": "threads", "threaded": threaded, "users": users, "progs": progs}
-            got = 0
-            for pts in self.enum_preemptions(base, 2, rng, per):
+            rep = {"threaded": threaded, "users": users, "progs": progs, "bound1": 0, "bound2": 0, "bound2_complete": True}
+            level1 = self.extensions(base, [])
+            rep["bound1"] = len(level1)
+            for pts in [[]] + level1:
                 c = dict(base); c["sched"] = {"type": "preempt", "points": pts}
                 yield c
-                got += 1
-                if got >= per: break
+            for pts in level1:
+                if rep["bound2"] >= cap2:
+                    rep["bound2_complete"] = False; break
+                for pts2 in self.extensions(base, pts):
+                    rep["bound2"] += 1
+                    c = dict(base); c["sched"] = {"type": "preempt", "points": pts2}
+                    yield c
+            self.exhaustive_report.append(rep)
 
-    def enum_preemptions(self, base, bound, rng, cap):
-        """depth-first: run the schedule, look at the choices actually made, branch on every later alternative"""
-        seen = set()
-        todo = [[]]
-        out = 0
-        while todo and out < cap:
-            pts = todo.pop()
-            key = json.dumps(pts)
-            if key in seen: continue
-            seen.add(key)
-            yield pts
-            out += 1
-            if len(pts) >= bound: continue
-            c = dict(base); c["sched"] = {"type": "preempt", "points": pts}
-            try:
-                info = self.run_threads(c, want_choices=True)
-            except Infra:
-                continue
-            start = (pts[-1][0] + 1) if pts else 0
-            ext = []
-            for step, (names, chosen, at_action) in enumerate(info["choices"]):
-                if step < start or not at_action: continue
-                for n in names:
-                    if n != chosen and info["prev"][step] in names:     # switching away from an enabled thread
-                        ext.append(pts + [[step, n]])
-            rng.shuffle(ext)
-            todo.extend(ext)
+    def extensions(self, base, pts):
+        """all schedules that add one pre-emption after the last one of `pts` (looked up in an actual run)"""
+        c = dict(base); c["sched"] = {"type": "preempt", "points": pts}
+        try:
+            info = self.run_threads(c, want_choices=True)
+        except Infra:
+            return []
+        start = (pts[-1][0] + 1) if pts else 0
+        ext = []
+        for step, (names, chosen, at_action) in enumerate(info["choices"]):
+            if step < start or not at_action: continue
+            if info["prev"][step] not in names: continue          # the running thread blocked or ended: a free switch
+            for n in names:
+                if n != chosen:
+                    ext.append(pts + [[step, n]])
+        return ext
 
     # ------------------------------------------------------------------ implementation: threads
     def chooser_of(self, sched):
@@ -236,7 +265,7 @@ class C07(Check):
         tr = sys.gettrace()                                   # run_check's AnchorCoverage tracer, if it is active
         covobj = getattr(tr, "__self__", None)
         if isinstance(covobj, common.AnchorCoverage): cover = covobj.hit
-        trace_funcs, yield_lines = self.trace_funcs, self.yield_lines
+        trace_funcs, yield_lines = self.trace_funcs, self.min_yield_lines()
         if cover is not None:                                 # coverage wants every line of the anchored files
             trace_funcs = _AllOf({self.rfile, self.pcore.__file__})
         ctl = ft.Controller(chooser, trace_funcs=trace_funcs, yield_lines=yield_lines, max_steps=MAX_STEPS,
@@ -396,7 +425,7 @@ class C07(Check):
     def _at_action(self, key):
         """is a thread parked at `key` about to perform something the model knows as an action?"""
         if key[0] in ("user", "cb", "begin"): return True
-        if key[0] == "L": return (self.rfile, key[2]) in self.yield_lines
+        if key[0] == "L": return True
         return key[0] == "P"
 
     # ------------------------------------------------------------------ raw trace -> (tid, site, timeout)
@@ -788,6 +817,7 @@ class C07(Check):
 
     def extra_evidence(self):
         return {"technique": self.technique, "level_text": self.level_text, "level_note": self.level_note,
+                "bounded_exhaustive": getattr(self, "exhaustive_report", None),
                 "forced_scheduler": {"runs": self.stats["runs"], "steps": self.stats["steps"],
                                      "quiescent": self.stats["quiescent"], "deadlock": self.stats["deadlock"]}}
 
